@@ -40,7 +40,7 @@ type C05SharedCase struct {
 	Conns         int        `json:"conns"`
 	ShareSettings bool       `json:"share_settings"` // the same *LogonSettings is handed to every session as well
 	Before        []SharedOp `json:"before"`
-	Held          SharedOp   `json:"held"` // its first outgoing Save is held back ...
+	Held          SharedOp   `json:"held"`      // its first outgoing Save is held back ...
 	Meanwhile     []SharedOp `json:"meanwhile"` // ... while these run on the other connections
 	After         []SharedOp `json:"after"`
 }
